@@ -91,22 +91,22 @@ class Dirty:
         self.matrix = cases_matrix()
 
     def total(self, tier):
-        return 4 * len(self.matrix) + (self._quick if tier == "quick" else self._thorough)
+        return 5 * len(self.matrix) + (self._quick if tier == "quick" else self._thorough)
 
     def deadline(self, tier):
         return 170 if tier == "quick" else 1500
 
     def gen(self, seed, index, tier):
-        if index < 4 * len(self.matrix):
+        if index < 5 * len(self.matrix):
             case = dict(self.matrix[index % len(self.matrix)])
             index4 = index // len(self.matrix)
             case["dirt"] = [dict(x, path={"pattern": "a.txt", "pattern_unchanged": "docs/series.txt", "pattern_quoted_name": "rel notes/what is new.txt",
                                         "pattern_respelled_key": "sub/b.txt", "pattern_deep": "pkg/deep/inner/c.txt", "pattern_latin1_name": LATIN1}.get(x["target"], "other.txt"),
                                  target=("pattern" if x["target"].startswith("pattern") else "unrelated")) for x in case["dirt"]]
             # flags that have nothing to do with the dirty check must not influence it
-            case["extra"] = [[], ["--ignore-vcs-tag"], ["--tag-scope", "branch"], ["--pin-increments"]][index4]
+            case["extra"] = [[], ["--ignore-vcs-tag"], ["--tag-scope", "branch"], ["--pin-increments"], ["-vv"]][index4]
             # the developer's tree may hold many other uncommitted files (listed before the pattern files by git)
-            case["many"] = [0, 0, 14, 0][index4]
+            case["many"] = [0, 0, 14, 0, 0][index4]
             case["user_config"] = USER_CONFIGS[(index // 7) % len(USER_CONFIGS)] if index4 == 3 else None
             case["link"] = [None, None, None, "a.txt", "docs/series.txt"][(index // 3) % 5] if index4 == 1 else None
         else:
@@ -131,7 +131,8 @@ class Dirty:
                     "user_config": rng.choice(USER_CONFIGS),
                     "link": rng.choice([None, None, None, None, "a.txt", "docs/series.txt"]),
                     "extra": rng.choice([[], [], ["--ignore-vcs-tag"], ["--tag-scope", "global"], ["--tag-scope", "branch"],
-                                         ["--pin-increments"], ["--commit"], ["--tag-commit"], ["--no-push"]])}
+                                         ["--pin-increments"], ["--commit"], ["--tag-commit"], ["--no-push"], ["-v"], ["-vv"], ["-vv"],
+                                         ["--verbose", "--verbose"]])}
         case["ops"] = [{"op": "update"}]
         return case
 
